@@ -35,6 +35,15 @@ CHECKS = {
                 note=TB + "; hw/Npu.v footprint model trusted; intended identities are read from the compiler's own high-level "
                      "command stream by tools/wrap.py (run-time wrapper); views of one buffer with inconsistent strides are not "
                      "distinguished (C06/C10)"),
+    "C05": dict(cat="proof", ref="7/C05", technique="Coq theorems over hand models of the three allocators (random choices as an arbitrary oracle stream) + extraction correspondence incl. the recorded randint stream + property oracle on the real allocators",
+                text="greedy/linear/hillclimb_no_overlap (co-live ranges get disjoint byte intervals; declared-equivalent tensors share), "
+                     "*_aligned, *_total_is_extent (reported total bounds every end and is attained in the allocator's own end-of-buffer "
+                     "convention; exact when sizes are multiples of alignments), hillclimb_ge_peak, hillclimb_allocate_lr_terminates, "
+                     "hillclimb_search_terminates / _iterations_bound and hillclimb_terminates (every run, for every random stream, "
+                     "ends Ok within hc_iteration_bound) - all for ALL live-range sets. Greedy needs 0 < size "
+                     "(greedy_zero_size_refuted witness); round_up is additionally translated from the source.",
+                note=TB + "; hand models tied by correspondence (0 differences on ~9.5k quick / 322k thorough cases); HillClimb theorems "
+                     "assume sum(size+align) <= 2^63; Linear modelled with one tensor per range; verify_allocation not modelled"),
     "C09": dict(cat="proof", ref="7/C09", technique="Coq theorems over quantise_scale / reduced_quantise_scale / quantise_pooling_scale translated from the source every run (gen_*_eq lemmas) + correspondence for the float step, the elementwise triples and the register call sites",
                 text="quantise_scale_accurate(_Q): for every positive dyadic scale in range the pair has 2^30<=q<=2^31, 0<=shift<=63 and "
                      "relative error <= 2^-31; quantise_scale_degrades; quantise_scale_eq_tflite (same rational as TFLite "
